@@ -43,6 +43,38 @@ def select(obls, globs):
     return out
 
 
+# BOUNDED stand-ins (never counted as proved): real-code model-based suites, run (a) to look for a failing input when an
+# obligation failed, (b) when a code change took a function out of the deductive units' reach (undecided), (c) in the
+# thorough tier. They are never run by the quick tier on a tree where every obligation is discharged.
+BOUNDED = {
+    'store_model': {'test': 'replays/suite/vx_store_model.rs', 'props': ['C01', 'C05', 'C06', 'C07', 'C08', 'C09'],
+                    'bound': 'VX_HISTORIES histories (40 quick / 200 thorough) x 60 steps, seeded by VERIF_SEED; 12 adversarial topics, 3 contexts '
+                             '(one numerically adjacent, imported), all TTL kinds, remove, reopen, last-id/limit reads'},
+}
+
+
+def run_bounded(prop_id, tier, seed):
+    import subprocess
+    out = []
+    for name, b in BOUNDED.items():
+        if prop_id not in b['props']:
+            continue
+        env = dict(os.environ, VERIF_SEED=str(seed or 1), VX_HISTORIES='200' if tier == 'thorough' else '40')
+        try:
+            pr = subprocess.run([os.path.join(ROOT, 'tools', 'run_replay.sh'), os.path.join(ROOT, b['test']), REPO],
+                                capture_output=True, text=True, timeout=3000, env=env)
+            failed = pr.returncode != 0 and 'test result: FAILED' in pr.stdout
+            broken = pr.returncode != 0 and not failed
+            msg = ''
+            for ln in pr.stdout.split('\n'):
+                if 'panicked at' in ln or ln.startswith('[seed') or 'assertion' in ln:
+                    msg += ln.strip() + ' '
+            out.append({'suite': name, 'bound': b['bound'], 'failed': failed, 'broken': broken, 'message': msg[:600], 'output': pr.stdout[-3000:]})
+        except Exception as e:  # noqa
+            out.append({'suite': name, 'bound': b['bound'], 'failed': False, 'broken': True, 'message': str(e), 'output': ''})
+    return out
+
+
 def check(prop_id, tier, seed):
     t0 = time.time()
     spec = PROPS[prop_id]
@@ -99,6 +131,26 @@ def check(prop_id, tier, seed):
                 violations.append((name, ob))
         elif ob['status'] == 'undecided':
             undecided.append((name, ob))
+
+    # ---- bounded stand-ins ----------------------------------------------------------------
+    bounded_runs = []
+    will_be_undecided = not violations and (tooling or undecided or missing)
+    if (violations or will_be_undecided or tier == 'thorough') and os.environ.get('VX_NO_REPLAY') != '1':
+        bounded_runs = run_bounded(prop_id, tier, seed)
+        for br in bounded_runs:
+            if not br['failed']:
+                continue
+            if violations:
+                # a failing input for the failed obligation(s), found on the real code
+                for name, ob in violations:
+                    ob.setdefault('cex', f'bounded suite {br["suite"]} on the real code: {br["message"]}')
+                    ob.setdefault('replay', f'$ tools/run_replay.sh {BOUNDED[br["suite"]]["test"]}\n' + br['output'])
+            else:
+                # the deductive units could not decide (code shape changed), the bounded stand-in found a failing input
+                violations.append((f'bounded.{br["suite"]}', {'status': 'failed', 'engine': 'bounded real-code suite', 'unit': br['suite'],
+                                   'fn': BOUNDED[br['suite']]['test'], 'contract': 'reference model of ' + prop_id + ' (' + br['bound'] + ')',
+                                   'msg': br['message'], 'cex': br['message'],
+                                   'replay': f'$ tools/run_replay.sh {BOUNDED[br["suite"]]["test"]}\n' + br['output'], 'bounded': True}))
 
     # ---- report --------------------------------------------------------------------------
     os.makedirs(os.path.join(ROOT, 'replays'), exist_ok=True)
@@ -164,7 +216,9 @@ def check(prop_id, tier, seed):
         'functions_under_contract': my_pieces,
         'obligation_results': {n: {'status': o['status'], 'engine': o['engine'], 'unit': o['unit'], 'solver_ms': o.get('time_ms'),
                                    'bounded': o.get('bounded', False), 'bound': o.get('bound')} for n, o in sorted(mine.items())},
-        'bounded_checks': [{'obligation': n, 'bound': o.get('bound'), 'status': o['status']} for n, o in sorted(bounded.items())],
+        'bounded_checks': [{'obligation': n, 'bound': o.get('bound'), 'status': o['status']} for n, o in sorted(bounded.items())] +
+                          [{'suite': b['suite'], 'bound': b['bound'], 'status': 'failed' if b['failed'] else ('broken' if b['broken'] else 'held'),
+                            'message': b['message']} for b in bounded_runs],
         'known_findings_reported': [{'obligation': n, 'what': k['what']} for n, _, k in known_hits],
         'vacuity': {'canaries_failed_as_required': canaries, 'expected_obligation_globs_unmatched': missing},
         'assumption_scan': [f'{u} line {ln}: {kind}: {txt}' for (u, ln, kind, txt) in assumptions_scan][:400],
